@@ -46,7 +46,8 @@ type hcert struct {
 	fp     [32]byte
 	raw    []byte // the bytes Go retains in c.raw (signature is checked over raw[:len-64])
 	c      *certs.Certificate
-	wire   []byte // serialized form when there is one (for the policy path)
+	wire   []byte    // serialized form when there is one (for the policy path)
+	addFP  *[32]byte // Fingerprint field at the time of Store.AddCertificate, when it was changed afterwards
 }
 
 var maxUnix = uint64(math.MaxInt64 - 62135596800)
@@ -446,6 +447,12 @@ type query struct {
 func mkStore(cs []*hcert) certs.Store {
 	s := certs.Store{}
 	for _, h := range cs {
+		if h.addFP != nil {
+			h.c.Fingerprint = *h.addFP
+			s.AddCertificate(h.c)
+			h.c.Fingerprint = h.fp
+			continue
+		}
 		s.AddCertificate(h.c)
 	}
 	return s
@@ -461,7 +468,11 @@ func coqStore(s *scenario, cs []*hcert) string {
 	// newest first: AddCertificate overwrites
 	xs := make([]string, 0, len(cs))
 	for i := len(cs) - 1; i >= 0; i-- {
-		xs = append(xs, hv.Tuple(hv.N(fpIDs.of(cs[i].fp[:])), hv.N(uint64(s.add(cs[i])))))
+		key := cs[i].fp
+		if cs[i].addFP != nil {
+			key = *cs[i].addFP
+		}
+		xs = append(xs, hv.Tuple(hv.N(fpIDs.of(key[:])), hv.N(uint64(s.add(cs[i])))))
 	}
 	return hv.List(xs)
 }
@@ -485,6 +496,17 @@ func runVerify(class string, q query) (accepted bool) {
 	now := q.cur
 	if now.IsZero() {
 		now = clock
+		// the code reads the clock a little later than we do: keep away from window boundaries
+		for _, h := range append(append([]*hcert{q.leaf}, q.store...), q.presented) {
+			if h == nil {
+				continue
+			}
+			for _, b := range []time.Time{h.nb, h.na} {
+				if d := b.Sub(clock); d > -2*time.Second && d < 2*time.Second {
+					return false
+				}
+			}
+		}
 	}
 	var err error
 	panicked, msg := hv.Catch(func() { err = st.VerifyLeaf(q.leaf.c, opts) })
@@ -966,6 +988,23 @@ func inMemoryMutations(r *hv.Rand, all []*hcert) {
 			{"raw-truncated-64", func(h *hcert) { h.raw = h.raw[:64] }},
 			{"names=[]", func(h *hcert) { h.names = nil }},
 			{"names+extra", func(h *hcert) { h.names = append(h.names, certs.DNSName("extra.example")) }},
+		}
+		// Fingerprint field changed after AddCertificate: the map key is stale ("should not happen" branches)
+		for _, victim := range []*hcert{im, root} {
+			old := victim.fp
+			stale := inMemory(victim.label+"~fp-after-add", victim, func(h *hcert) { h.fp[0] ^= 0x55; h.addFP = &old })
+			var st []*hcert
+			for _, x := range roots {
+				if x != victim {
+					st = append(st, x)
+				}
+			}
+			st = append(st, stale)
+			p := im
+			if victim == im {
+				p = nil
+			}
+			runVerify("inmemory-stale-store-key", query{store: st, presented: p, name: nameReq{zero: true}, cur: tb, leaf: leaf})
 		}
 		for _, m := range muts {
 			l2 := inMemory(leaf.label+"~"+m.name, leaf, m.f)
@@ -1510,6 +1549,11 @@ func issuedChains(r *hv.Rand, n int) {
 		}
 		at := im.nb.Add(time.Duration(r.Intn(3000)) * time.Millisecond)
 		dur := hv.Pick(r, []time.Duration{time.Nanosecond, time.Second, 90 * time.Minute, 7 * 24 * time.Hour, 400 * 24 * time.Hour, 3000 * 24 * time.Hour})
+		if k%2 == 0 {
+			// valid from "now" for a long time: lets the real-clock queries accept
+			at = im.nb
+			dur = hv.Pick(r, []time.Duration{90 * time.Minute, 7 * 24 * time.Hour, 400 * 24 * time.Hour})
+		}
 		leaf := runIssue("issued-chain", 1, issueParent{im, true}, lk.Public, names, 1, at, dur)
 		if leaf == nil {
 			continue
@@ -1543,11 +1587,26 @@ func issuedChains(r *hv.Rand, n int) {
 				}
 			}
 		}
-		// real clock (CurrentTime zero): the chain was issued "now", the leaf is valid now unless it has already expired
-		if dur >= time.Second {
-			runVerify("issued-chain/realclock", query{store: []*hcert{root}, presented: im, name: nameReq{zero: true}, leaf: leaf})
-			runVerify("issued-chain/realclock", query{store: []*hcert{rootW, imW}, name: nameReq{zero: true}, leaf: leafW})
+		if dur >= time.Minute && at.Equal(im.nb) {
+			realClock = append(realClock, [6]*hcert{leaf, im, root, leafW, imW, rootW})
 		}
+	}
+}
+
+// real clock (CurrentTime zero): these chains were issued when the driver started and their leaves are
+// valid for at least a minute; runVerify keeps 2 s away from every window boundary because the code
+// reads the clock a little later than the driver does.
+var realClock [][6]*hcert
+
+func realClockQueries() {
+	time.Sleep(2100 * time.Millisecond)
+	for _, c := range realClock {
+		if c[3] == nil || c[4] == nil || c[5] == nil {
+			continue
+		}
+		runVerify("issued-chain/realclock", query{store: []*hcert{c[2]}, presented: c[1], name: nameReq{zero: true}, leaf: c[0]})
+		runVerify("issued-chain/realclock", query{store: []*hcert{c[5], c[4]}, name: nameReq{zero: true}, leaf: c[3]})
+		runVerify("issued-chain/realclock", query{store: []*hcert{c[5]}, name: nameReq{zero: true}, leaf: c[3]})
 	}
 }
 
@@ -1676,6 +1735,7 @@ func main() {
 	defer hv.Flush()
 	r := hv.NewRand(hv.Seed())
 
+	issuedChains(r, hv.Scale(6, 60))
 	timeWrapRegression(r)
 
 	if td := testdataChain(r); td != nil {
@@ -1688,7 +1748,7 @@ func main() {
 	}
 
 	// valid, properly nested hand-serialised forests
-	nValid := hv.Scale(2, 12)
+	nValid := hv.Scale(2, 6)
 	for i := 0; i < nValid; i++ {
 		f := synthForest(r, fmt.Sprintf("v%d.", i), false)
 		all := hs(f)
@@ -1701,28 +1761,28 @@ func main() {
 					runParent("parent", a, b)
 				}
 			}
-			policySweep(r, all, hv.Scale(120, 1500))
+			policySweep(r, all, hv.Scale(120, 800))
 			authkeysSweep(r, all, hv.Scale(40, 400))
-			issueSweep(r, f, hv.Scale(220, 3000))
+			issueSweep(r, f, hv.Scale(220, 1500))
 		}
 	}
 	// forests with wrong types, swapped parents, foreign signers, odd windows
-	nWild := hv.Scale(4, 40)
+	nWild := hv.Scale(4, 16)
 	for i := 0; i < nWild; i++ {
 		f := synthForest(r, fmt.Sprintf("w%d.", i), true)
 		all := hs(f)
-		sweepForest(r, "wild-forest", all, hv.Scale(2, 8), hv.Scale(55, 100))
+		sweepForest(r, "wild-forest", all, hv.Scale(2, 8), hv.Scale(42, 100))
 		if i < hv.Scale(1, 6) {
 			for _, a := range all {
 				for _, b := range all {
 					runParent("parent-wild", a, b)
 				}
 			}
-			policySweep(r, all, hv.Scale(80, 600))
+			policySweep(r, all, hv.Scale(80, 300))
 			authkeysSweep(r, all, hv.Scale(30, 200))
 		}
 	}
-	issuedChains(r, hv.Scale(6, 60))
+	realClockQueries()
 
 	var rs []string
 	for k, v := range reasonHist {
